@@ -1,23 +1,50 @@
 from props import P
 
 CFG = P(
-        harness=["harness/C10.cc", "harness/C10_r2.cc"], harness_deps=["harness/C10_common.hh"], srcs=["Hash.cc", "Strings.cc", "Filesystem.cc", "Process.cc", "Time.cc", "Encoding.cc"],
+        harness=["harness/C10.cc", "harness/C10_r2.cc"], harness_deps=["harness/C10_common.hh"],
+        srcs=["Hash.cc", "Strings.cc", "Filesystem.cc", "Process.cc", "Time.cc", "Encoding.cc"],
         ldflags=["-lcrypto"],
         oracle="C10",
-        rule="a case is one (function, length, fill pattern) triple or one (function, input, split point) triple; triples are distinct by construction; every case is non-trivial (a full digest / checksum is computed by the library and by the independent implementation and compared)",
+        rule="a case is one (function, length, fill pattern) triple, one (function, input, split point[s], overload combination set) tuple, one call HISTORY (2-3 calls, or a whole sweep over all "
+             "lengths, executed inside the case), one (function, overload, storage, content sequence) tuple, one (seed with its prefix witness, overload, suffix) tuple or one (function, overload, "
+             "input, context) tuple; tuples are distinct by construction; every case is non-trivial (the library result(s) and the independent reference are computed and compared) except the "
+             "fnv1a64 calls with a seed for which no prefix is known (executed, not compared, not counted as non-trivial)",
         bounds={
-            "quick": "MD5, SHA-1, SHA-256, crc32, fnv1a32, fnv1a64 on every length 0..300 x 4 fill patterns and on 15 block-boundary sizes up to 2^20+1 x 4 patterns (state words, bin(), hex(), string overload); chaining of crc32/fnv1a32/fnv1a64 at every split point of every input of length 0..96 x 4 patterns",
-            "thorough": "as quick with every length 0..4096, and chaining at every split point of every input of length 0..300 and of the 1025-byte inputs",
+            "quick": "lengths: MD5, SHA-1, SHA-256, crc32, fnv1a32, fnv1a64 on every length 0..300 x 6 fills (00, FF, counter, LCG, all-high-bit, ASCII), every overload (ptr+size, std::string, implicit "
+                     "conversion, explicit/defaulted start), state words + bin() + hex(), copy, re-rendering; boundaries: 15 sizes up to 2^20+1 x 6 fills; big16m: 2^24+{55,56,63,64} x 2 fills; "
+                     "huge: 2^29+56 bytes; chain: every split point of every input of length 0..96 x 6 fills x every overload combination; chain3: every pair of split points, length 0..20, and "
+                     "read loops with empty reads, length 0..130 x 10 chunk sizes; pairs: f(A),f(B),f(A) for every ordered pair of 192 shapes (lengths 64*{0,1,2}+16 residues x 4 fills) x overload "
+                     "combinations; cross: f(A),g(B),f(A) for all 30 ordered function pairs x 96^2 shape pairs; triples: 16^3 shape triples per function, 8^3 length triples per digest mix; sweeps: "
+                     "all lengths 0..300 in one case in 4 orders; storage: same buffer / same std::string with replaced content, digest objects constructed into / assigned over prior states; "
+                     "misaligned: pointer offsets 1..15, 7 representations of the empty string; seeds: 120 boundary seeds (crc32 99, fnv1a32 15, fnv1a64 6) each witnessed by a prefix; context: fresh thread, catch handler, "
+                     "destructor during unwinding, nested, histories spread over 3 threads",
+            "thorough": "as quick with lengths 0..4096, chain 0..300 and 1025, chain3 0..40 / read loops 0..300, pairs/cross/storage over all 64 residues (768 / 384 shapes), triples over 36 shapes, "
+                        "sweeps 0..1024, misaligned also lengths 258..520, big16m 9 sizes, huge sizes {2^29-1, 2^29, 2^29+8, 2^29+56, 2^32-1, 2^32, 2^32+56}",
         },
-        explanation="E-ENUM over the real Hash.cc; oracle = OpenSSL EVP digests and zlib crc32 linked into the harness (counted in traces_validated_against_impl), FNV-1a by the published recurrence; a Python stage re-derives every reference with hashlib/zlib on independently regenerated inputs",
+        explanation="E-ENUM over the real Hash.cc; oracle = OpenSSL EVP digests and zlib crc32 linked into the harness (counted in traces_validated_against_impl), FNV-1a by the published recurrence; "
+                    "a Python stage re-derives the references of the lengths/boundaries/big16m sections with hashlib/zlib on independently regenerated inputs. Call histories run inside one case "
+                    "(replayable alone); results are judged when produced and digest objects are rendered again after the history.",
         assumptions=[
-            "inputs are the four deterministic fill patterns (00, FF, counter, LCG seeded by the length); 'random inputs up to 1 MiB' of the quantifier is covered by the LCG pattern at the block-boundary sizes, not by sampling",
+            "inputs are six deterministic fill patterns (00, FF, counter, LCG seeded by the length, all-high-bit, printable ASCII) and, above 2^24+64 bytes, a 2 MiB LCG pattern mapped repeatedly; "
+            "'random inputs up to 1 MiB' of the quantifier is covered by the LCG pattern at the block-boundary sizes, not by sampling",
             "hex() is compared case-insensitively (the library prints upper case)",
-            "inputs larger than 2^20+1 bytes (in particular >= 2^29 bytes, where size<<3 exceeds 32 bits) are not executed",
+            "a seed is compared only when the harness holds a prefix whose reference hash IS that seed (crc32: the unique 4-byte prefix of any 32-bit value, computed by running the register "
+            "backwards and verified with zlib; fnv1a32: 5-byte prefixes found by meet-in-the-middle; fnv1a64: the published zero-hash string and what follows from it); fnv1a64 boundary seeds "
+            "without a known prefix (1, 2^32-1, 2^32, 2^63-1, 2^63, 2^64-2, 2^64-1) are executed but not compared",
+            "(nullptr, 0) is treated as a representation of the empty byte string, with and without a seed (the repository's own HashTest passes nullptr with size 0 to every function)",
+            "sizes near SIZE_MAX are not executed (reading that many bytes is undefined); the largest input is 2^32+56 bytes (thorough), 2^29+56 bytes (quick)",
+            "environment classes that do not apply to pure in-memory functions (EINTR, short reads/writes, file vs pipe, partly consumed streams) are not enumerated; ambient errno is poisoned "
+            "before every call; concurrency (two hashes running at the same time) is outside the statement and not explored: threads are used one at a time",
         ],
         engine="E-ENUM",
-        technique="exhaustive enumeration of message lengths across all padding cases and of all split points, compared with independent implementations (OpenSSL EVP, zlib, Python hashlib)",
-        level_text="Every message length 0..300 (0..4096 thorough) with four fill patterns, plus block-boundary sizes up to 1 MiB, is hashed by the real MD5/SHA1/SHA256/crc32/fnv1a code and by OpenSSL/zlib/the published FNV recurrence; bin() and hex() renderings and every split point for seed chaining (inputs <= 96 bytes, <= 300 thorough) are compared. References are bound a second time to Python hashlib/zlib.",
-        level_note="Trusted: OpenSSL 3 EVP, zlib and Python hashlib as the standard algorithms. Content space is four patterns per length, not all byte strings.",
+        technique="exhaustive enumeration of message lengths across all padding cases, of all split points, of all ordered pairs/triples of calls over a boundary shape set (state carried between "
+                  "calls), of storage/object prior states, boundary seeds and calling contexts, compared with independent implementations (OpenSSL EVP, zlib, Python hashlib)",
+        level_text="Every message length 0..300 (0..4096 thorough) with six fill patterns, block-boundary sizes up to 2^24+64 and one 2^29+56-byte input (2^32+56 thorough) are hashed by the real "
+                   "MD5/SHA1/SHA256/crc32/fnv1a code through every overload and by OpenSSL/zlib/the published FNV recurrence; bin() and hex() renderings, every split point (and pair of split "
+                   "points) for seed chaining, read loops with empty reads and boundary seeds with prefix witnesses are compared. Every ordered pair of calls over 192 boundary shapes (768 "
+                   "thorough), triples, whole sweeps in four orders, reused storage with new content, reused digest objects, misaligned pointers and five calling contexts (threads, catch "
+                   "handlers, unwinding) are enumerated so that state carried between calls shows. References are bound a second time to Python hashlib/zlib.",
+        level_note="Trusted: OpenSSL 3 EVP, zlib and Python hashlib as the standard algorithms. Content space is six patterns per length, not all byte strings. Histories are bounded to three "
+                   "calls (plus whole-sweep cases) over the boundary shape set.",
         deadline={"quick": 600, "thorough": 3600},
     )
